@@ -364,7 +364,21 @@ private theorem piecesOf_spec (pts : Array (V2 K)) :
           simp [pt, Array.getD_eq_getD_getElem?, hs]
     · rw [if_neg h3] at h
       cases hf : @fromConvexPolyline K (fieldNum K sq) (p.map (@pt K (fieldNum K sq) pts)) with
-      | none => simp [hf] at h
+      | none =>
+        simp only [hf] at h
+        cases hu : @fromConvexPolylineUnmodified K (fieldNum K sq) (p.map (@pt K (fieldNum K sq) pts)) with
+        | none => simp [hu] at h
+        | some r =>
+          simp only [hu, Option.map_some] at h
+          cases hrest : @piecesOf K (fieldNum K sq) (ps.map fun p => p.map (@pt K (fieldNum K sq) pts)) with
+          | none => simp [hrest] at h
+          | some rest =>
+            simp only [hrest, Option.map_some, Option.some.injEq] at h
+            subst h
+            refine List.Forall₂.cons ?_ (ih rest hrest)
+            obtain ⟨a, b, c⟩ := @fromConvexPolylineUnmodified_spec K (fieldNum K sq) _ r.1 r.2 hu
+            refine ⟨by simpa using h3, ?_, b, c⟩
+            rw [a]; simp
       | some r =>
         simp only [hf, Option.map_some] at h
         cases hrest : @piecesOf K (fieldNum K sq) (ps.map fun p => p.map (@pt K (fieldNum K sq) pts)) with
